@@ -1346,6 +1346,17 @@ def _apply_substs(text, ed, secs, log, where):
         m = re.match(r"\s*<<<\n(.*?)\n===\n(.*?)\n>>>\s*$", body, re.S)
         if not m: raise ExtractError(f"{where}: malformed subst")
         old, new = m.group(1), m.group(2)
+        if (x.arg or "").startswith("all:"):
+            # every occurrence (at least one) of an expression is replaced
+            if text.count(old) < 1:
+                raise ExtractError(f"lost-anchor: {where}: subst anchor occurs 0x: {old[:60]!r}")
+            pos_ = 0
+            while True:
+                a = text.find(old, pos_)
+                if a < 0: break
+                ed.replace(a, a + len(old), new); pos_ = a + len(old)
+            log.append(("S", where, f"{x.arg}: {old[:80]!r} -> {new[:80]!r} ({text.count(old)}x)"))
+            continue
         if text.count(old) != 1:
             raise ExtractError(f"lost-anchor: {where}: subst anchor occurs {text.count(old)}x: {old[:60]!r}")
         a = text.index(old)
